@@ -710,8 +710,8 @@ def clause_to_nogood_shape(lib):
             return False, "pushes %s rather than the negation of the predicate being iterated" % show(v)[:70], x.span
         # the push happens for every element: its block is dominated by the Some edge only
         extra = [show(g.atom)[:50] for g in guards_of(f, x.bb)
-                 if not (g.kind == "variant" and g.val in ("Some",)) and not (g.kind == "variant" and g.neg)
-                 and any(y.k == "call" and y.a.name == "next" for y in g.atom.walk()) is False
+                 if not (g.kind == "variant" and peel(g.atom, calls=None).k == "call"
+                         and peel(g.atom, calls=None).a.name == "next")
                  and f.cfg.reaches(x.bb, [g.edge.node], strict=True)]
         if extra:
             return False, "pushes the negation only if %s" % ", ".join(extra), x.span
